@@ -1,47 +1,15 @@
 package headerfs
 
-// Environment models used by the headerfs harnesses: an in-memory file
-// system with POSIX O_APPEND semantics and an in-memory walletdb.DB with
-// atomic transactions.  Every mutating call is a "durable step" that can
-// fail, or be the point at which the process dies (vpCrash panic).
-//
-// The same Go code runs under the symbolic executor and natively when a
-// counterexample is replayed.
+// In-memory file system with POSIX O_APPEND semantics (see also the
+// common walletdb model).
 
 import (
-	"bytes"
 	"errors"
 	"io"
 	"io/fs"
 	"os"
 	"time"
-
-	"github.com/btcsuite/btcwallet/walletdb"
 )
-
-// ---------------------------------------------------------------- faults
-
-type vpCrash struct{ step int }
-
-type vpFaultCtl struct {
-	step     int // number of durable steps executed so far
-	crashAt  int // crash when about to execute this step (1-based); 0 = never
-	torn     int // for a Write at the crash step: bytes that reach the disk
-	failAt   int // this step reports an error (1-based); 0 = never
-	failPart int // for a failing Write: bytes written before the error
-	log      []string
-}
-
-var vpFault = &vpFaultCtl{}
-
-var errVpInjected = errors.New("vp: injected I/O error")
-
-// next registers a durable step. It returns (crash, fail).
-func (c *vpFaultCtl) next(what string) (bool, bool) {
-	c.step++
-	c.log = append(c.log, what)
-	return c.crashAt != 0 && c.step == c.crashAt, c.failAt != 0 && c.step == c.failAt
-}
 
 // ---------------------------------------------------------------- files
 
@@ -213,318 +181,6 @@ func (i vpFileInfo) Sys() interface{}   { return nil }
 
 func (f *vpFile) Stat() (os.FileInfo, error) {
 	return vpFileInfo{name: f.d.name, size: int64(len(f.d.data))}, nil
-}
-
-// ---------------------------------------------------------------- walletdb
-
-type vpBucket struct {
-	keys    [][]byte
-	vals    [][]byte
-	subKeys [][]byte
-	subs    []*vpBucket
-	// autoSub: every 2-byte sub-bucket exists (materialised on demand);
-	// stands for the 65536 buckets ensureIndexSubBuckets pre-creates.
-	autoSub bool
-	seq     uint64
-	tx      *vpTx
-}
-
-func (b *vpBucket) clone() *vpBucket {
-	nb := &vpBucket{autoSub: b.autoSub, seq: b.seq}
-	for i := range b.keys {
-		nb.keys = append(nb.keys, b.keys[i])
-		nb.vals = append(nb.vals, b.vals[i])
-	}
-	for i := range b.subs {
-		nb.subKeys = append(nb.subKeys, b.subKeys[i])
-		nb.subs = append(nb.subs, b.subs[i].clone())
-	}
-	return nb
-}
-
-func (b *vpBucket) setTx(tx *vpTx) {
-	b.tx = tx
-	for _, s := range b.subs {
-		s.setTx(tx)
-	}
-}
-
-func (b *vpBucket) sub(key []byte) *vpBucket {
-	for i, k := range b.subKeys {
-		if bytes.Equal(k, key) {
-			return b.subs[i]
-		}
-	}
-	if b.autoSub && len(key) == 2 {
-		nb := &vpBucket{tx: b.tx}
-		b.subKeys = append(b.subKeys, append([]byte(nil), key...))
-		b.subs = append(b.subs, nb)
-		return nb
-	}
-	return nil
-}
-
-func (b *vpBucket) NestedReadBucket(key []byte) walletdb.ReadBucket {
-	s := b.sub(key)
-	if s == nil {
-		return nil
-	}
-	return s
-}
-
-func (b *vpBucket) NestedReadWriteBucket(key []byte) walletdb.ReadWriteBucket {
-	s := b.sub(key)
-	if s == nil {
-		return nil
-	}
-	return s
-}
-
-func (b *vpBucket) ForEach(f func(k, v []byte) error) error {
-	for i := range b.keys {
-		if err := f(b.keys[i], b.vals[i]); err != nil {
-			return err
-		}
-	}
-	for i := range b.subKeys {
-		if err := f(b.subKeys[i], nil); err != nil {
-			return err
-		}
-	}
-	return nil
-}
-
-func (b *vpBucket) Get(key []byte) []byte {
-	for i, k := range b.keys {
-		if bytes.Equal(k, key) {
-			return append([]byte{}, b.vals[i]...)
-		}
-	}
-	return nil
-}
-
-func (b *vpBucket) Sequence() uint64 { return b.seq }
-
-func (b *vpBucket) CreateBucket(key []byte) (walletdb.ReadWriteBucket, error) {
-	if len(key) == 0 {
-		return nil, walletdb.ErrBucketNameRequired
-	}
-	if b.sub(key) != nil {
-		return nil, walletdb.ErrBucketExists
-	}
-	nb := &vpBucket{tx: b.tx}
-	b.subKeys = append(b.subKeys, append([]byte(nil), key...))
-	b.subs = append(b.subs, nb)
-	return nb, nil
-}
-
-func (b *vpBucket) CreateBucketIfNotExists(key []byte) (walletdb.ReadWriteBucket, error) {
-	if len(key) == 0 {
-		return nil, walletdb.ErrBucketNameRequired
-	}
-	if s := b.sub(key); s != nil {
-		return s, nil
-	}
-	return b.CreateBucket(key)
-}
-
-func (b *vpBucket) DeleteNestedBucket(key []byte) error {
-	for i, k := range b.subKeys {
-		if bytes.Equal(k, key) {
-			b.subKeys = append(b.subKeys[:i], b.subKeys[i+1:]...)
-			b.subs = append(b.subs[:i], b.subs[i+1:]...)
-			return nil
-		}
-	}
-	return walletdb.ErrBucketNotFound
-}
-
-func (b *vpBucket) Put(key, value []byte) error {
-	if len(key) == 0 {
-		return walletdb.ErrKeyRequired
-	}
-	if b.tx != nil && !b.tx.writable {
-		return walletdb.ErrTxNotWritable
-	}
-	for i, k := range b.keys {
-		if bytes.Equal(k, key) {
-			b.vals[i] = append([]byte{}, value...)
-			return nil
-		}
-	}
-	b.keys = append(b.keys, append([]byte{}, key...))
-	b.vals = append(b.vals, append([]byte{}, value...))
-	return nil
-}
-
-func (b *vpBucket) Delete(key []byte) error {
-	if b.tx != nil && !b.tx.writable {
-		return walletdb.ErrTxNotWritable
-	}
-	for i, k := range b.keys {
-		if bytes.Equal(k, key) {
-			b.keys = append(b.keys[:i:i], b.keys[i+1:]...)
-			b.vals = append(b.vals[:i:i], b.vals[i+1:]...)
-			return nil
-		}
-	}
-	return nil
-}
-
-type vpCursor struct {
-	b *vpBucket
-	i int
-}
-
-func (c *vpCursor) at() ([]byte, []byte) {
-	if c.i < 0 || c.i >= len(c.b.keys) {
-		return nil, nil
-	}
-	return c.b.keys[c.i], c.b.vals[c.i]
-}
-func (c *vpCursor) First() ([]byte, []byte) { c.i = 0; return c.at() }
-func (c *vpCursor) Last() ([]byte, []byte)  { c.i = len(c.b.keys) - 1; return c.at() }
-func (c *vpCursor) Next() ([]byte, []byte)  { c.i++; return c.at() }
-func (c *vpCursor) Prev() ([]byte, []byte)  { c.i--; return c.at() }
-func (c *vpCursor) Seek(seek []byte) ([]byte, []byte) {
-	for i, k := range c.b.keys {
-		if bytes.Compare(k, seek) >= 0 {
-			c.i = i
-			return c.at()
-		}
-	}
-	c.i = len(c.b.keys)
-	return nil, nil
-}
-func (c *vpCursor) Delete() error {
-	k, _ := c.at()
-	if k == nil {
-		return nil
-	}
-	return c.b.Delete(k)
-}
-
-func (b *vpBucket) ReadCursor() walletdb.ReadCursor           { return &vpCursor{b: b} }
-func (b *vpBucket) ReadWriteCursor() walletdb.ReadWriteCursor { return &vpCursor{b: b} }
-func (b *vpBucket) Tx() walletdb.ReadWriteTx                  { return b.tx }
-func (b *vpBucket) NextSequence() (uint64, error)             { b.seq++; return b.seq, nil }
-func (b *vpBucket) SetSequence(v uint64) error                { b.seq = v; return nil }
-
-type vpDB struct {
-	root   *vpBucket // top-level buckets are the subs of root
-	closed bool
-}
-
-func vpNewDB() *vpDB { return &vpDB{root: &vpBucket{}} }
-
-type vpTx struct {
-	db       *vpDB
-	root     *vpBucket
-	writable bool
-	done     bool
-	onCommit []func()
-}
-
-func (t *vpTx) ReadBucket(key []byte) walletdb.ReadBucket {
-	s := t.root.sub(key)
-	if s == nil {
-		return nil
-	}
-	return s
-}
-
-func (t *vpTx) ReadWriteBucket(key []byte) walletdb.ReadWriteBucket {
-	s := t.root.sub(key)
-	if s == nil {
-		return nil
-	}
-	return s
-}
-
-func (t *vpTx) ForEachBucket(f func(key []byte) error) error {
-	for _, k := range t.root.subKeys {
-		if err := f(k); err != nil {
-			return err
-		}
-	}
-	return nil
-}
-
-func (t *vpTx) CreateTopLevelBucket(key []byte) (walletdb.ReadWriteBucket, error) {
-	if s := t.root.sub(key); s != nil {
-		return s, nil // bdb's CreateTopLevelBucket is create-if-not-exists
-	}
-	return t.root.CreateBucket(key)
-}
-
-func (t *vpTx) DeleteTopLevelBucket(key []byte) error { return t.root.DeleteNestedBucket(key) }
-
-func (t *vpTx) Rollback() error {
-	if t.done {
-		return walletdb.ErrTxClosed
-	}
-	t.done = true
-	return nil
-}
-
-// Commit is one durable step: it either happens entirely or not at all.
-func (t *vpTx) Commit() error {
-	if t.done {
-		return walletdb.ErrTxClosed
-	}
-	t.done = true
-	if !t.writable {
-		return walletdb.ErrTxNotWritable
-	}
-	crash, fail := vpFault.next("db-commit")
-	if crash {
-		panic(vpCrash{vpFault.step})
-	}
-	if fail {
-		return errVpInjected
-	}
-	t.root.setTx(nil)
-	t.db.root = t.root
-	for _, f := range t.onCommit {
-		f()
-	}
-	return nil
-}
-
-func (t *vpTx) OnCommit(f func()) { t.onCommit = append(t.onCommit, f) }
-
-func (d *vpDB) BeginReadTx() (walletdb.ReadTx, error) {
-	return &vpTx{db: d, root: d.root}, nil
-}
-
-func (d *vpDB) BeginReadWriteTx() (walletdb.ReadWriteTx, error) {
-	tx := &vpTx{db: d, writable: true}
-	tx.root = d.root.clone()
-	tx.root.setTx(tx)
-	return tx, nil
-}
-
-func (d *vpDB) Copy(w io.Writer) error { return errors.New("vp: Copy unsupported") }
-func (d *vpDB) Close() error           { d.closed = true; return nil }
-func (d *vpDB) PrintStats() string     { return "" }
-
-func (d *vpDB) View(f func(tx walletdb.ReadTx) error, reset func()) error {
-	reset()
-	tx := &vpTx{db: d, root: d.root}
-	err := f(tx)
-	tx.done = true
-	return err
-}
-
-func (d *vpDB) Update(f func(tx walletdb.ReadWriteTx) error, reset func()) error {
-	reset()
-	txi, _ := d.BeginReadWriteTx()
-	tx := txi.(*vpTx)
-	if err := f(tx); err != nil {
-		tx.done = true
-		return err
-	}
-	return tx.Commit()
 }
 
 // vpReadyDB returns a database whose header-index bucket already has the
